@@ -3,10 +3,11 @@
    executes one instruction from state s: the instruction fetch, the load/store of the instruction, and
    for a system call the words the SVC clause of the spec reads and writes (mem[1], the arguments at
    sp+2/sp+3, the result at sp+1).
-   Proved below: step_accesses_complete (two memories that agree on the accessed words give the same
-   step, so `accesses` misses nothing the step depends on), step_writes_only_stores (memory changes only
-   at a listed Store address) and monitor_sound (if the executable monitor accepts a run, the five
-   clauses of property C08 hold of that run as propositions). *)
+   Executable definitions only (this file is extracted).  Proved in IsaMonProofs.v:
+   step_accesses_complete (two memories that agree on the accessed words give the same step, so `accesses`
+   misses nothing the step depends on), step_writes_only_stores (memory changes only at a listed Store
+   address) and monitor_sound (if the executable monitor accepts a run, the five clauses of property C08
+   hold of that run as propositions). *)
 From Coq Require Import ZArith List Bool Lia.
 From HexVerif Require Import WMap Isa.
 Import ListNotations.
@@ -25,11 +26,7 @@ Definition sys_accesses (s : arch) : list access :=
   | _ => []
   end.
 
-Definition accesses (s : arch) : list access :=
-  let w := pc s / 4 in
-  (Fetch, w) ::
-  if negb (in_mem w) then [] else
-  let inst := fetch s in
+Definition op_accesses (s : arch) (inst : Z) : list access :=
   let o := Z.lor (oreg s) (inst mod 16) in
   match inst / 16 with
   | 0 => [(Load, o)]
@@ -41,6 +38,10 @@ Definition accesses (s : arch) : list access :=
   | 13 => match o with 3 => sys_accesses s | _ => [] end
   | _ => []
   end.
+
+Definition accesses (s : arch) : list access :=
+  let w := pc s / 4 in
+  (Fetch, w) :: if negb (in_mem w) then [] else op_accesses s (fetch s).
 
 (* the regions of a loaded image: word 0 and the words from the first instruction after the data block
    up to the end of the image are code; [data_lo, data_hi) are the DATA words (stack-pointer word 1,
